@@ -121,6 +121,30 @@ func extractCFHeaders() {
 		shape["thresholdExpr"] = thr
 	}
 
+	// getCFHeadersForAllPeers: how the length of an answer is tested
+	if fd := funcDecl(f, "blockManager", "getCFHeadersForAllPeers"); fd == nil {
+		fail("blockmanager.go: method blockManager.getCFHeadersForAllPeers")
+	} else {
+		test := ""
+		ast.Inspect(fd.Body, func(n ast.Node) bool {
+			be, ok := n.(*ast.BinaryExpr)
+			if !ok {
+				return true
+			}
+			x, y := nospace(src(be.X)), nospace(src(be.Y))
+			if (x == "len(m.FilterHashes)" && y == "numHeaders") || (y == "len(m.FilterHashes)" && x == "numHeaders") {
+				test += x + be.Op.String() + y
+			}
+			return true
+		})
+		if test == "" {
+			fail("blockmanager.go: getCFHeadersForAllPeers: comparison of len(m.FilterHashes) with numHeaders")
+		}
+		l.def("responseLengthTest", "String", "\""+test+"\"",
+			"how getCFHeadersForAllPeers compares the number of filter hashes of an answer with the number requested (must be equality: longer answers are dropped too)")
+		shape["responseLengthTest"] = test
+	}
+
 	// resolveConflict: both sanity passes look at the complete checkpoint lists
 	if fd := funcDecl(f, "blockManager", "resolveConflict"); fd == nil {
 		fail("blockmanager.go: method blockManager.resolveConflict")
